@@ -1,3 +1,4 @@
+from functools import wraps
 from pathlib import Path
 from typing import List
 
@@ -45,6 +46,18 @@ class ParseError(Exception):
     pass
 
 
+def _refuse_too_deep_nesting(fn):
+    @wraps(fn)
+    def wrapper(*args, **kwargs):
+        try:
+            return fn(*args, **kwargs)
+        except RecursionError:
+            raise ParseError("The program is nested too deeply.") from None
+
+    return wrapper
+
+
+@_refuse_too_deep_nesting
 def convert(
     progin: str,
     *,
